@@ -176,6 +176,10 @@ func c07CallerSets(typ, field string) (string, bool) {
 }
 
 func runC07(c *an.Ctx) {
+	dnssvcWiring(c, "C07-R6", func(dst, src string) bool {
+		n := normName(dst) + " " + normName(src)
+		return strings.Contains(n, "cloner") || strings.Contains(n, "disposer")
+	}, 3)
 	// the ECS cache stores the response before any per-client adjustment (shared with C04-R5)
 	ecsStoreOrder(c, "C07-R4")
 	c.Inf("C07-R6", "shared-configuration sweep", token.NoPos, "%d stores into shared server-group / profile data found on the request path (each is reported)",
